@@ -117,6 +117,62 @@ def chk_copeland(o, out):
     sweep.prove(o, z3.And(*conj), "reported Copeland scores / victory-equality-defeat counts differ from the definition", "features", out)
 
 
+def sym_copeland(args):
+    """[S over datasets AND schemes]: CopelandMethod on a SymDataset"""
+    n, m = args
+    from vf import symds
+    from corankco.algorithms.copeland.copeland import CopelandMethod
+    from corankco.element import Element
+    sweep.install()
+    symds.install_kernel_dispatcher()
+    out = []
+    ds = symds.SymDataset(n, m)
+    B, T = fork.scheme_vars()
+    sc = fork.make_scheme(B, T)
+    tab = ds.cost_table(B, T)
+    S, C = {}, {}
+    for x in range(n):
+        s_, v = z3.RealVal(0), [z3.IntVal(0)] * 3
+        for y in range(n):
+            if y != x:
+                bf, af = tab[x][y][0], tab[x][y][1]
+                s_ = s_ + z3.If(bf < af, z3.RealVal(1), z3.If(bf == af, HALF, z3.RealVal(0)))
+                v = [v[0] + z3.If(bf < af, 1, 0), v[1] + z3.If(bf == af, 1, 0), v[2] + z3.If(bf > af, 1, 0)]
+        S[x], C[x] = s_, v
+    ex = fork.Explorer(fork.valid_scheme(B, T) + ds.constraints(), max_paths=int(1e5), timeout_ms=120000)
+
+    def pay(mdl, what, cls):
+        return {"signature": {"site": "CopelandMethod(symbolic dataset)", "class": cls}, "what": what, "check": cls, "config": "Copeland", "flag": True,
+                "rankings": shapes.raw_json(ds.levels_from(mdl), ds.names), "scheme": fork.scheme_values(mdl, B, T), "choices": []}
+
+    def path(ctx):
+        try:
+            cons = CopelandMethod().compute_consensus_rankings(ds, sc, True)
+            lv = shapes.ranking_levels(cons.consensus_rankings[0], ds.names)
+        except harness.HarnessError:
+            raise
+        except Exception as e:  # noqa
+            ctx._ensure_model()
+            out.append(pay(ctx.model, f"raised {type(e).__name__}: {e}", "raises"))
+            return
+        if any(v == -1 for v in lv):
+            ctx._ensure_model()
+            out.append(pay(ctx.model, "element missing from the consensus", "order"))
+            return
+        conj = [S[x] > S[y] if lv[x] < lv[y] else S[x] < S[y] if lv[x] > lv[y] else S[x] == S[y] for x, y in itertools.combinations(range(n), 2)]
+        fs, fv = cons.copeland_scores, cons.copeland_victories
+        for x in range(n):
+            el = Element(ds.names[x])
+            conj.append(fork.term(fs[el]) == S[x])
+            conj += [fork.term(list(fv[el])[k]) == z3.ToReal(C[x][k]) for k in range(3)]
+        mdl = ctx.prove(z3.And(*conj))
+        if mdl is not None:
+            out.append(pay(mdl, f"Copeland ranking {spec.buckets_of(lv)} / features differ from the definition", "order"))
+    ex.explore(path)
+    STATS.sample({"symbolic dataset": f"all datasets with n={n}, m={m}", "scheme": "12 symbolic reals", "paths": STATS.paths})
+    return out
+
+
 def run(run):
     sweep.install()
     if run.thorough:
@@ -133,6 +189,9 @@ def run(run):
     run.pmap("kernel", kernel, kn)
     items = sweep.make_items(run, ["Copeland"], [chk_copeland, "wellformed"], flags=(True, False), light=light, heavy=light)
     run.pmap("sweep.run_item", sweep.run_item, items, chunksize=4)
+    symb = [(2, 2), (3, 1), (3, 2), (2, 3)] + ([(3, 3), (4, 1)] if run.thorough else [])
+    run.bounds["Copeland on symbolic datasets [S over datasets and schemes] (n, m)"] = symb
+    run.pmap("sym_copeland", sym_copeland, symb)
     run.extra["work_items"] = len(items)
 
 
